@@ -11,7 +11,8 @@ NODE_INVS = ['OneProposalPerView', 'OneResponsePerView', 'OneCommit', 'OnePreCom
 INV_PROP = {'OneProposalPerView': 'C03', 'OneResponsePerView': 'C03', 'OneCommit': 'C03', 'OnePreCommit': 'C03', 'CommitLock': 'C03',
             'CommitEvidence': 'C04', 'ViewEvidence': 'C04', 'ResponseEvidence': 'C04', 'OneDecision': 'C05', 'PreBlockOnce': 'C07',
             'PhaseOrder': 'C07', 'AmevOff': 'C07', 'TimerOK': 'C10', 'Silent': 'C13', 'HeldTxsBelong': 'C11', 'PrimaryOK': 'C06',
-            'PreCertificate': 'C02', 'Certificate': 'C02'}
+            'PreCertificate': 'C02', 'Certificate': 'C02', 'ResetClean': 'C05', 'EarlyUsed': 'C05',
+            'NeverAsks': 'C08', 'View0': 'C08', 'Decides': 'C08', 'TheBlock': 'C08'}
 
 def node_cfg(name, me=1, h=2, maxview=1, amev=False, watch=False, dyn=False, family=('core',), dev=True, weaken=(), invs=None, n=4,
              emit=False, emitlen=0, props=('CommitLock', 'PreCertificate')):
@@ -20,7 +21,7 @@ def node_cfg(name, me=1, h=2, maxview=1, amev=False, watch=False, dyn=False, fam
     wk = '{' + ', '.join('"%s"' % f for f in weaken) + '}'
     b = lambda v: 'TRUE' if v else 'FALSE'
     txt = ('SPECIFICATION Spec\nCONSTANTS\n  N = %d\n  Me = %d\n  H = %d\n  MaxView = %d\n  AmevOn = %s\n  WatchFlag = %s\n  DynOn = %s\n'
-           '  Family = %s\n  DevEarlyCommitUnverified = %s\n  Weaken = %s\n  Emit = %s\n  EmitLen = %d\nCONSTRAINT ViewBound\nVIEW View\n'
+           '  Family = %s\n  DevEarlyCommitUnverified = %s\n  Weaken = %s\n  Emit = %s\n  EmitLen = %d\n  CoverMod = 1\nCONSTRAINT ViewBound\nVIEW View\n'
            % (n, me, h, maxview, b(amev), b(watch), b(dyn), fam, b(dev), wk, b(emit), emitlen))
     if invs or emit:
         txt += 'INVARIANTS ' + ' '.join(list(invs) + (['EmitBehaviour'] if emit else [])) + '\n'
@@ -37,6 +38,7 @@ NODE_FAMILIES = {
         node_cfg('watch', me=2, watch=True),
         node_cfg('amev-v0', me=1, amev=True, maxview=0, family=('core', 'junk1')),
         node_cfg('kf1-regression', me=1, maxview=0, family=('core', 'junk1'), invs=['Certificate'], props=()),      # must FIND the KF-1 counterexample
+        node_cfg('next1-v0', me=1, maxview=0, family=('core', 'next1'), props=('CommitLock', 'PreCertificate', 'ResetClean', 'EarlyUsed')),
         node_cfg('kf1-fixed-model', me=1, maxview=0, family=('core', 'junk1'), dev=False, invs=['Certificate'], props=()),  # and nothing else
     ],
     # minutes each: computed once per specification version (cached by the hash of spec/*.tla), reported by every check
@@ -44,6 +46,13 @@ NODE_FAMILIES = {
         node_cfg('core-backup-then-primary', me=1),
         node_cfg('junk1', me=1, family=('core', 'junk1')),
         node_cfg('amev', me=1, amev=True),
+        node_cfg('next-v0', me=1, maxview=0, family=('core', 'next'), props=('CommitLock', 'PreCertificate', 'ResetClean', 'EarlyUsed')),
+    ],
+    'cover': [
+        node_cfg('amev-v0s', me=1, amev=True, maxview=0),
+        node_cfg('tx-v0', me=1, maxview=0, family=('core', 'tx', 'app')),
+        node_cfg('dyn-v0', me=2, maxview=0, dyn=True, family=('core', 'tx')),
+        node_cfg('rec-v0', me=1, maxview=0, family=('core', 'recovery')),
     ],
     'thorough': [
         node_cfg('core-primary-v0', me=2),
@@ -59,11 +68,26 @@ NODE_FAMILIES = {
     ],
 }
 
-def run_tlc(item, wd, workers=4, cap=1800, simulate=None):
+def sync_cfg(name, n=4, me=1, h=2, amev=False, two=True):
+    b = lambda v: 'TRUE' if v else 'FALSE'
+    txt = ('SPECIFICATION Spec\nCONSTANTS\n  N = %d\n  Me = %d\n  H = %d\n  AmevOn = %s\n  TwoHeights = %s\n  Emit = FALSE\n  CoverMod = 1\n'
+           'VIEW View\nINVARIANTS NeverAsks View0 Decides TheBlock\nCHECK_DEADLOCK FALSE\n' % (n, me, h, b(amev), b(two)))
+    return dict(name=name, module='MC_Sync', cfg=txt)
+
+# C08 at design level: every delivery order of a fault-free synchronous run, one node at a time (spec/MC_Sync.tla)
+SYNC_FAMILIES = [sync_cfg('sync-backup', me=1), sync_cfg('sync-primary-first', me=2), sync_cfg('sync-primary-second', me=3),
+                 sync_cfg('sync-backup-far', me=0),
+                 sync_cfg('sync-amev-backup', me=1, amev=True), sync_cfg('sync-amev-primary', me=2, amev=True),
+                 sync_cfg('sync-n7-backup', n=7, me=1, two=False), sync_cfg('sync-n7-primary', n=7, me=2, two=False)]
+
+def run_tlc(item, wd, workers=4, cap=1800, simulate=None, cover=0):
     sd = os.path.join(wd, 'mc-' + item['name']); os.makedirs(sd, exist_ok=True)
     for f in ('DbftNode.tla', item['module'] + '.tla'):
         shutil.copy(os.path.join(vlib.VERIF, 'spec', f), sd)
     cfg = item['cfg'] if (simulate and not simulate.get('dump')) else item['cfg'].replace('Emit = FALSE', 'Emit = TRUE')   # carry the schedule (hidden by VIEW)
+    if cover:   # print the stored schedule of every state (EmitCover)
+        cfg = cfg.replace('INVARIANTS ', 'INVARIANTS EmitCover ') if 'INVARIANTS ' in cfg else cfg + 'INVARIANTS EmitCover\n'
+        cfg = cfg.replace('CoverMod = 1', 'CoverMod = %d' % cover)
     open(os.path.join(sd, 'mc.cfg'), 'w').write(cfg)
     cex = os.path.join(sd, 'cex.json')
     cmd = ['java', '-Xmx8g', '-Xss256m', '-XX:+UseParallelGC', '-cp', vlib.JAVA_CP, 'tlc2.TLC', '-workers', str(workers),
@@ -103,9 +127,32 @@ def run_tlc(item, wd, workers=4, cap=1800, simulate=None):
     elif not timed_out and not simulate:
         shutil.rmtree(sd, ignore_errors=True)
         raise Infra('TLC failed on %s:\n%s' % (item['name'], out[-2500:]))
-    res['stdout'] = out if (simulate and not simulate.get('dump')) else ''
+    res['stdout'] = out if (cover or (simulate and not simulate.get('dump'))) else ''
     shutil.rmtree(sd, ignore_errors=True)
     return res
+
+def cover_behaviours(item, wd, out_file, cap=1500, mod=1):
+    """State cover (spec -> code): breadth-first exploration of an MC_Node configuration; every distinct state is printed with
+    the schedule that reached it; the leaves of the resulting prefix tree are written as behaviours for the script driver."""
+    r = run_tlc(item, wd, workers=1, cap=cap, cover=mod)
+    uniq, parents = {}, set()
+    for ln in r['stdout'].splitlines():
+        if ln.startswith('<<"COVER", "'):
+            try:
+                evs = json.loads(json.loads(ln.strip()[len('<<"COVER", '):-2]))
+            except Exception:
+                continue     # a line torn by concurrent output
+            k = json.dumps(evs, sort_keys=True)
+            uniq[k] = evs
+            parents.add(json.dumps(evs[:-1], sort_keys=True))
+    leaves = [s for k, s in uniq.items() if k not in parents]
+    leaves.sort(key=lambda s: json.dumps(s, sort_keys=True))
+    with open(out_file, 'w') as o:
+        for s in leaves:
+            o.write(json.dumps(s) + '\n')
+    r.pop('stdout', None)
+    r.update(schedules_printed=len(uniq), leaves=len(leaves), events=sum(len(s) for s in leaves))
+    return r
 
 def net_cfg(name, byz=(2,), h=2, maxview=1, amev=False, dev=True, weaken=(), invs=('Agreement',), n=4, maxsteps=60):
     b = lambda v: 'TRUE' if v else 'FALSE'
@@ -141,6 +188,53 @@ def design_net(tier, wd, vh, seed=1):
         r.pop('schedule', None)
     return res
 
+GEN_DIRS = [os.path.join(vlib.VERIF, 'generated'), os.path.join(vlib.VERIF, '.cache', 'generated')]
+
+def item_key(item, extra=''):
+    """Artefacts derived from the specification alone (design-check results, state-cover schedules) are a function of the
+    module texts and the configuration: they are stored under this key (committed in generated/, else .cache/generated/)."""
+    import hashlib
+    h = hashlib.sha256()
+    for f in ('DbftNode.tla', item['module'] + '.tla'):
+        h.update(open(os.path.join(vlib.VERIF, 'spec', f), 'rb').read())
+    h.update(item['cfg'].encode()); h.update(extra.encode())
+    return h.hexdigest()[:16]
+
+def gen_lookup(fname):
+    for d in GEN_DIRS:
+        p = os.path.join(d, fname)
+        if os.path.exists(p):
+            return p
+    return None
+
+def gen_store_path(fname):
+    d = GEN_DIRS[0] if os.environ.get('VERIF_REGEN') == '1' else GEN_DIRS[1]
+    os.makedirs(d, exist_ok=True)
+    return os.path.join(d, fname)
+
+def cover_file(item, wd, cap=3000, mod=1):
+    """Path of the (gzip) behaviours file of the state cover of `item`, computing it if the specification changed."""
+    import gzip
+    fname = 'cover-%s-%s.ndjson.gz' % (item['name'], item_key(item, 'cover%s' % mod))
+    p = gen_lookup(fname)
+    meta = None
+    if p is None:
+        tmp = os.path.join(wd, 'cover-%s.ndjson' % item['name'])
+        meta = cover_behaviours(item, wd, tmp, cap=cap, mod=mod)
+        if not meta['completed']:
+            raise Infra('state cover of %s did not complete' % item['name'])
+        p = gen_store_path(fname)
+        with open(tmp, 'rb') as i, gzip.open(p + '.tmp', 'wb', 6) as o:
+            shutil.copyfileobj(i, o)
+        os.replace(p + '.tmp', p)
+        json.dump(meta, open(p.replace('.ndjson.gz', '.meta.json'), 'w'))
+        os.remove(tmp)
+    else:
+        mp = p.replace('.ndjson.gz', '.meta.json')
+        meta = json.load(open(mp)) if os.path.exists(mp) else {}
+        meta['from_store'] = os.path.relpath(p, vlib.VERIF)
+    return p, meta
+
 def spec_hash():
     return vlib.tree_hash(os.path.join(vlib.VERIF, 'spec'), ('.tla',))
 
@@ -156,26 +250,31 @@ def replay_schedule(evs, vh, wd, tag):
     viols, lines, states = vlib.tlc_trace(tf, wd)
     return viols, bf, tf
 
-def design(tier, wd, vh=None, names=None):
+def design(tier, wd, vh=None, names=None, module='MC_Node'):
     """Run the design checks; model counterexamples are replayed on the real code (if vh is given)."""
-    cache_dir = os.path.join(vlib.VERIF, '.cache', 'design'); os.makedirs(cache_dir, exist_ok=True)
     sh = spec_hash()
-    items = [('fresh', i) for i in NODE_FAMILIES['quick']] + [('cached', i) for i in NODE_FAMILIES['cached']]
-    if tier != 'quick':
-        items += [('cached', i) for i in NODE_FAMILIES['thorough']]
+    if module == 'MC_Sync':
+        items = [('fresh', i) for i in SYNC_FAMILIES]
+    else:
+        items = [('fresh', i) for i in NODE_FAMILIES['quick']] + [('cached', i) for i in NODE_FAMILIES['cached']]
+        if tier != 'quick':
+            items += [('cached', i) for i in NODE_FAMILIES['thorough']]
     if names:
         items = [(k, i) for k, i in items if i['name'] in names]
     def one(ki):
         kind, it = ki
-        cf = os.path.join(cache_dir, '%s-%s.json' % (sh, it['name']))
-        if kind == 'cached' and os.path.exists(cf):
-            r = json.load(open(cf)); r['from_cache'] = True
+        fname = 'design-%s-%s.json' % (it['name'], item_key(it))
+        cf = gen_lookup(fname)
+        if cf and not (kind == 'fresh' and tier != 'quick'):      # thorough re-runs the small ones
+            r = json.load(open(cf)); r['from_cache'] = os.path.relpath(cf, vlib.VERIF)
             return r
-        r = run_tlc(it, wd, workers=4 if kind == 'fresh' else 8, cap=600 if kind == 'fresh' else 3000)
+        regen = os.environ.get('VERIF_REGEN') == '1'
+        r = run_tlc(it, wd, workers=(8 if regen else 4) if kind == 'fresh' else 8,
+                    cap=(300 if regen else 120) if kind == 'fresh' else (900 if regen or tier != 'quick' else 420))
         r.pop('stdout', None); r['from_cache'] = False; r['spec_hash'] = sh
         r['invariants'] = [l for l in it['cfg'].splitlines() if l.startswith('INVARIANTS') or l.startswith('PROPERTY')]
-        if kind == 'cached' and (r['completed'] or r['violated']):
-            json.dump(r, open(cf, 'w'))
+        # a run that hits its time cap is a bounded breadth-first search (reported as such: completed = false)
+        json.dump(r, open(gen_store_path(fname), 'w'))
         return r
     with ThreadPoolExecutor(max_workers=4) as ex:
         res = list(ex.map(one, items))
